@@ -1053,3 +1053,106 @@ def r_dedupskip(E):
     res.samples = [{"embedded_positive_examples_recognised": 1, "embedded_twins_silent": True}]
     res.floor = 40
     return res
+
+
+# ---------------------------------------------------------------------------------------------- R-LOOKUPKEY
+_LK_POSITIVE = '''
+KNOWN = {s.name: s for s in ALL}
+def source_of(d):
+    key = d["source"]["name"]
+    return KNOWN.get(key) or Source(d["source"]["name"], d["source"]["link"])
+def zone_of(name, offset):
+    return ZONES[name] if name in ZONES else Zone(name, offset)
+'''
+_LK_NEGATIVE = '''
+KNOWN = {(s.name, s.link): s for s in ALL}
+def source_of(d):
+    key = (d["source"]["name"], d["source"]["link"])
+    return KNOWN.get(key) or Source(d["source"]["name"], d["source"]["link"])
+def zone_of(name):
+    return ZONES.get(name) or Zone(name)
+def label_of(d):
+    return d.get("label") or default_label(d["id"], d["kind"])
+'''
+
+
+def _data_leaves(e, fn):
+    """texts of the maximal data reads of an expression (names, attribute / constant-subscript chains), locals expanded"""
+    from ..astutil import fully_expanded
+    e = fully_expanded(e, fn) if fn is not None else e
+    out = set()
+
+    def walk(x):
+        if isinstance(x, (ast.Name, ast.Attribute)) or (isinstance(x, ast.Subscript) and isinstance(x.slice, ast.Constant)):
+            b = x
+            while isinstance(b, (ast.Attribute, ast.Subscript)):
+                b = b.value
+            if isinstance(b, ast.Name):
+                out.add(norm(x))
+                return
+        for ch in ast.iter_child_nodes(x):
+            walk(ch)
+    walk(e)
+    return out
+
+
+def incomplete_lookup_keys(tree):
+    """[(node, table, key leaves, builder leaves)]: `T.get(K) or Build(args)` / `T[K] if K in T else Build(args)` with T a
+    module-level table (an upper-case name) where Build reads data that K does not contain: two requests that share K but
+    differ in the rest get the same object from the table"""
+    out = []
+    for n in ast.walk(tree):
+        table = key = build = None
+        if isinstance(n, ast.BoolOp) and isinstance(n.op, ast.Or) and len(n.values) == 2:
+            a, b = n.values
+            if isinstance(a, ast.Call) and isinstance(a.func, ast.Attribute) and a.func.attr == "get" and len(a.args) == 1 \
+                    and isinstance(a.func.value, ast.Name) and a.func.value.id.isupper() and isinstance(b, ast.Call):
+                table, key, build = a.func.value.id, a.args[0], b
+        if isinstance(n, ast.IfExp) and isinstance(n.test, ast.Compare) and len(n.test.ops) == 1 \
+                and isinstance(n.test.ops[0], ast.In) and isinstance(n.test.comparators[0], ast.Name) \
+                and n.test.comparators[0].id.isupper() and isinstance(n.body, ast.Subscript) \
+                and norm(n.body.value) == n.test.comparators[0].id and isinstance(n.orelse, ast.Call):
+            table, key, build = n.test.comparators[0].id, n.test.left, n.orelse
+        if table is None or not (isinstance(build.func, ast.Name) and build.func.id[:1].isupper()):
+            continue
+        fn = n
+        while fn is not None and not isinstance(fn, ast.FunctionDef):
+            fn = getattr(fn, "_parent", None)
+        kl = _data_leaves(key, fn)
+        bl = set()
+        for a_ in list(build.args) + [k.value for k in build.keywords]:
+            bl |= _data_leaves(a_, fn)
+        extra = {x for x in bl - kl if not any(x.startswith(k_ + ".") or x.startswith(k_ + "[") or k_.startswith(x + "[")
+                                                 or k_.startswith(x + ".") for k_ in kl)}
+        if kl and extra:
+            out.append((n, table, kl, extra))
+    return out
+
+
+@rule("R-LOOKUPKEY")
+def r_lookupkey(E):
+    pm = E.pm
+    res = RuleResult("R-LOOKUPKEY", "`TABLE.get(key) or Build(…)` (an object taken from a table of known ones, built only when "
+                                    "absent): the key contains every datum the builder would use — otherwise a request that "
+                                    "shares the key with a known object but differs in the rest silently gets the known one")
+    for mod, (rel, tree, src) in sorted(pm.modules.items()):
+        res.instances += len([n for n in ast.walk(tree) if isinstance(n, (ast.BoolOp, ast.IfExp))])
+        for n, table, kl, extra in incomplete_lookup_keys(tree):
+            fn = n
+            while fn is not None and not isinstance(fn, ast.FunctionDef):
+                fn = getattr(fn, "_parent", None)
+            q = fn.name if fn is not None else "<module>"
+            res.findings.append(Finding(
+                "R-LOOKUPKEY", f"{rel}:{q} :: {table}",
+                f"{q} looks `{sorted(kl)}` up in {table} and builds from `{sorted(extra | kl)}` only when it is absent: "
+                f"`{sorted(extra)}` is not part of the key, so a value that shares the key with a known entry but has "
+                f"another {sorted(extra)[0]} comes back as the known entry (a saved source with a custom link loads with "
+                f"the library's link)", rel, n.lineno, q, {"clauses": _area(rel)}))
+    pos = incomplete_lookup_keys(set_parents(ast.parse(_LK_POSITIVE)))
+    neg = incomplete_lookup_keys(set_parents(ast.parse(_LK_NEGATIVE)))
+    if len(pos) != 2 or neg:
+        raise AnalysisError(f"R-LOOKUPKEY: embedded examples: {len(pos)} of 2 positive recognised, {len(neg)} false reports")
+    res.instances += 2
+    res.samples = [{"embedded_positive_examples_recognised": 2, "embedded_twins_silent": True}]
+    res.floor = 50
+    return res
